@@ -123,7 +123,8 @@ DESCR = {
     "Value": "`GoVal`: a Go value *with its representation* (int widths, typed slices, arrays, maps, MapSlice, pointers, drops, structs, time); `ToLiquid`; text codec",
     "Time": "`time.Time` in UTC with whole seconds: the proleptic Gregorian calendar from unix seconds for every integer (`civilOfDays` / `daysOfCivil` over 400-year eras with March-based years, weekday, day of the year, `ISOWeek`, `Broken`), weekday and month names, `values.ParseDate` on the five all-digit layouts and the strings no layout can start on (`parseDate`)",
     "Utf8": "`utf8.DecodeRune`/`DecodeLastRune`/`EncodeRune`, `unicode.IsSpace`, `bytes.TrimLeftFunc/TrimRightFunc`",
-    "Unicode": "finite case-mapping table used by upcase/downcase/capitalize",
+    "Unicode": "`unicode.ToUpper` / `unicode.ToLower` on every rune, by lookup in the generated range tables (used by upcase/downcase/capitalize and the keys of sort_natural)",
+    "CaseRange": "vocabulary of the case tables: a range `⟨lo, hi, alt, img⟩` moves every (or every second) rune of an interval by the same distance; `caseLookup` (T6)",
     "F64": "floats as exact rationals with IEEE-754 round-to-nearest-even (`roundF64`, `roundF32`)",
     "ExprLex": "`expressions/scanner.rl`: the expression lexer (longest match, keywords, literals, ranges)",
     "ExprParse": "`expressions/expressions.y`: expressions, filters, `%assign`/`%loop`/`%cycle`/`%when` statements (recursive descent with fuel)",
@@ -156,6 +157,7 @@ DESCR = {
     "Generated/Grammar": "written by translator T1 on every run: the block grammar table of `AddStandardTags`",
     "Generated/Filters": "written by translator T2 on every run: name, parameter types and result shape of every `AddFilter` of `AddStandardFilters`",
     "Generated/TokenRe": "written by translator T4 on every run: the format string, arguments and exclusion loop of `formTokenMatcher`",
+    "Generated/CaseTables": "written by translator T6 on every run: the simple case mapping of the toolchain's `unicode` package (`unicode.ToUpper` / `ToLower` called on every rune, run-length encoded: 200 + 182 ranges for Unicode 15.0.0), `unicode.Version`, and the six runes on which `ToUpper ∘ ToLower ∘ ToUpper = ToUpper` fails",
     "Generated/MapIter": "written by translator T5 on every run: every place where the library iterates a Go map (`range`, `MapKeys`, `MapRange`) and whether its function calls into package `sort`",
 }
 
